@@ -366,6 +366,22 @@ def default_tol(prec):
     return Fraction(1, 2 ** (prec + 9))
 
 
+def tol_sanity():
+    """the reading of findroot's default tolerance is re-checked against the live eps of the tree under test"""
+    from mpmath import mp
+    bad = []
+    p0 = mp.prec
+    try:
+        for p in (30, 53, 100, 200, 300):
+            mp.prec = p + 20
+            v = xval(mp.eps * 2 ** 10)
+            if v is None or v[0] != default_tol(p):
+                bad.append(p)
+    finally:
+        mp.prec = p0
+    return bad
+
+
 # ------------------------------------------------------------------------------------------------ findroot calls
 
 CALL_TIMEOUT = 30
@@ -1201,6 +1217,7 @@ def process(rep, todo, tag, budget, rule, tier_):
         "polyroots_root_error_clause_skipped_ill_conditioned": illcond,
         "direct_violations(exceptions/non-finite, before known-finding matching)": len(directs),
         "precisions": precs,
+        "default_tol_reading_matches_live_eps": not tol_sanity(),
         "generation_wall_s": round(tgen, 1),
         "tolerances": {"findroot": "default eps(prec+20)*2^10 = 2^(-prec-9), or the user-supplied dyadic tol",
                        "mnewton": "|x-r| < 2^(4-p/m)", "polyroots": "K_resid=%d, K_root=%d, cond limit %d" % (K_RESID, K_ROOT, COND_LIMIT)},
@@ -1220,6 +1237,10 @@ RULE = ("each evaluation = one call of findroot (12 solver names x regimes: near
 
 def run(rep, tier_, rng):
     load_known_b(rep); load_known_b4(rep)
+    bad = tol_sanity()
+    if bad:
+        rep.violation("C29 harness reading broken: eps(prec+20)*2^10 != 2^(-prec-9) at prec %s (the default tolerance of findroot is "
+                      "derived from ctx.eps)" % bad, {"fn": "findroot", "regime": "default_tol", "precs": bad}, no_input=True)
     todo = generate_calls(rng, tier_)
     budget = 110 if tier_ == "quick" else 1000
     process(rep, todo, "C29_%s" % tier_, budget, RULE, tier_)
@@ -1233,8 +1254,7 @@ def replay(rep, path):
     keep = ("fn", "regime", "prec", "solver", "problem", "x0", "tol", "maxsteps", "verify", "deriv", "planted", "coeffs", "kwargs",
             "form", "qcoeffs", "root", "m")
     call = {k: r[k] for k in keep if k in r}
-    if call.get("fn") == "polyroots" and call.get("kwargs"):
-        pass                              # replay with the keyword arguments that produced the recorded result
+    # a polyroots replay uses the keyword arguments that produced the recorded result (call["kwargs"])
     load_known_b(rep)
     process(rep, [call], rep.pid + "_replay", 300, "replay of one recorded call", "quick")
     rep.coverage["stored_certificate_still_checks"] = None
